@@ -21,7 +21,8 @@ pub struct Event {
     /// position pick, decoded by `Plan::positions` against the case's length and period
     pub pick: u16,
     /// 1 = `clone()`; 2 = `target.clone_from(&instance)` with a used target; 3 = serde round trip (serde build,
-    /// otherwise a clone)
+    /// otherwise a clone); 4 = `reset()` of every instance the check runs side by side (only in checks that ask
+    /// `due_reset()`; not an identity event: the check restarts its own window bookkeeping)
     pub mode: u8,
     /// the clone_from target's own earlier history (one price per input)
     pub dirt: Vec<X>,
@@ -43,6 +44,7 @@ pub struct TCase<C> {
 struct Active {
     at: Vec<(usize, Event)>,
     calls: usize,
+    rcalls: usize,
     applied: usize,
 }
 
@@ -73,7 +75,7 @@ fn position(pick: u16, len: usize, n: usize) -> usize {
 /// were actually applied.
 pub fn with_plan<R>(plan: &Plan, len: usize, n: usize, f: impl FnOnce() -> R) -> (R, usize) {
     let at = plan.events.iter().map(|e| (position(e.pick, len, n), e.clone())).collect();
-    PLAN.with(|p| *p.borrow_mut() = Some(Active { at, calls: 0, applied: 0 }));
+    PLAN.with(|p| *p.borrow_mut() = Some(Active { at, calls: 0, rcalls: 0, applied: 0 }));
     let _g = Guard;
     let r = f();
     let applied = PLAN.with(|p| p.borrow().as_ref().map(|a| a.applied).unwrap_or(0));
@@ -131,7 +133,7 @@ pub fn step(ind: &mut Ind, cfg: &Cfg) {
         if let Some(a) = b.as_mut() {
             let c = a.calls;
             a.calls += 1;
-            let todo: Vec<Event> = a.at.iter().filter(|(pos, _)| *pos == c).map(|(_, e)| e.clone()).collect();
+            let todo: Vec<Event> = a.at.iter().filter(|(pos, e)| *pos == c && e.mode != 4).map(|(_, e)| e.clone()).collect();
             a.applied += todo.len();
             drop(b);
             for e in &todo {
@@ -139,6 +141,40 @@ pub fn step(ind: &mut Ind, cfg: &Cfg) {
             }
         }
     });
+}
+
+/// Call once per input, before `step`: true if a reset of all side-by-side instances is scheduled here.
+#[inline]
+pub fn due_reset() -> bool {
+    PLAN.with(|p| {
+        let mut b = p.borrow_mut();
+        if let Some(a) = b.as_mut() {
+            let c = a.rcalls;
+            a.rcalls += 1;
+            let due = c > 0 && a.at.iter().any(|(pos, e)| *pos == c && e.mode == 4);
+            if due {
+                a.applied += 1;
+            }
+            due
+        } else {
+            false
+        }
+    })
+}
+
+/// plans for checks that implement `due_reset()`: resets mixed with identity events
+pub fn plan_with_resets() -> BoxedStrategy<Plan> {
+    let ev = (event(), 0u8..3).prop_map(|(mut e, r)| {
+        if r > 0 {
+            e.mode = 4;
+            e.dirt.clear();
+        }
+        e
+    });
+    proptest::collection::vec(ev, 1..4).prop_map(|events| Plan { events }).boxed()
+}
+pub fn wrap_resets<C: std::fmt::Debug + Clone + 'static>(s: BoxedStrategy<C>) -> BoxedStrategy<TCase<C>> {
+    (s, plan_with_resets()).prop_map(|(case, plan)| TCase { case, plan }).boxed()
 }
 
 pub fn event() -> BoxedStrategy<Event> {
